@@ -1,6 +1,7 @@
 package c08
 
 import (
+	"errors"
 	"fmt"
 	"os"
 	"path/filepath"
@@ -29,7 +30,10 @@ type snapStore struct {
 	mu   sync.Mutex
 	pre  func() // before the m-th Update on topic_states_store
 	post func()
+	fail func() bool // should the Update that is about to run fail (its function runs, then the tx rolls back)?
 }
+
+var errInjected = errors.New("injected storage failure")
 
 func openStore(path string) (*snapStore, error) {
 	// NoSync: the harness never kills the process, it copies the file inside a read transaction.
@@ -55,9 +59,9 @@ func (s *snapStore) Diagnostic() storage.Diagnostic                    { return 
 func (s *snapStore) Path() string                                      { return s.path }
 func (s *snapStore) CloseBolt() error                                  { return s.db.Close() }
 
-func (s *snapStore) setHooks(pre, post func()) {
+func (s *snapStore) setHooks(pre, post func(), fail func() bool) {
 	s.mu.Lock()
-	s.pre, s.post = pre, post
+	s.pre, s.post, s.fail = pre, post, fail
 	s.mu.Unlock()
 }
 
@@ -78,7 +82,21 @@ func (h *hooked) Update(f func(storage.Tx) error) error {
 	if pre != nil {
 		pre()
 	}
-	err := h.Interface.Update(f)
+	h.s.mu.Lock()
+	fail := h.s.fail
+	h.s.mu.Unlock()
+	var err error
+	if fail != nil && fail() {
+		// the transaction function runs, the commit does not happen (rollback), the caller gets an error
+		err = h.Interface.Update(func(tx storage.Tx) error {
+			if e := f(tx); e != nil {
+				return e
+			}
+			return errInjected
+		})
+	} else {
+		err = h.Interface.Update(f)
+	}
 	if post != nil {
 		post()
 	}
@@ -249,6 +267,33 @@ func (r *recs) render(upto map[string]int) string {
 		found[t] = g
 	}
 	return renderDump(found, r.topics)
+}
+
+type logPart struct {
+	rc   *recs
+	upto map[string]int // nil = everything
+}
+
+// renderParts concatenates, per topic, the logs of several consecutive processes.
+func renderParts(topics []string, parts []logPart) string {
+	found := map[string][]string{}
+	for _, t := range topics {
+		var all []string
+		for _, p := range parts {
+			g := p.rc.by[t].snapshot()
+			if p.upto != nil {
+				n := p.upto[t]
+				if n > len(g) {
+					g = append(g[:len(g):len(g)], "SHORT")
+				} else {
+					g = g[:n]
+				}
+			}
+			all = append(all, g...)
+		}
+		found[t] = all
+	}
+	return renderDump(found, topics)
 }
 
 // ---- scratch directory per case ----
